@@ -7,6 +7,7 @@ import (
 	"go/ast"
 	"go/printer"
 	"go/token"
+	"sort"
 	"strings"
 )
 
@@ -96,33 +97,49 @@ func genBatchFacts() {
 	l.p("def taprootMultiSigWitnessSize : Nat := %s", intConst(ps, "poolscript", "TaprootMultiSigWitnessSize"))
 	l.p("def multiSigWitnessSize : Nat := %s", intConst(ps, "poolscript", "MultiSigWitnessSize"))
 
-	// ---- BatchVersion.Supports*: the return expressions must have the shape
-	// the model hard-wires ((bv & LinearVersionEnd) >= X)
-	for fn, want := range map[string]string{
-		"BatchVersion.SupportsAccountExtension":      "(bv & LinearVersionEnd) >= ExtendAccountBatchVersion",
-		"BatchVersion.SupportsAccountTaprootUpgrade": "(bv & LinearVersionEnd) >= UpgradeAccountTaprootBatchVersion",
+	// ---- BatchVersion.Supports*: `(bv & LinearVersionEnd) >= X` up to operand order / direction of the comparison
+	for _, w := range [][2]string{
+		{"BatchVersion.SupportsAccountExtension", "ExtendAccountBatchVersion"},
+		{"BatchVersion.SupportsAccountTaprootUpgrade", "UpgradeAccountTaprootBatchVersion"},
 	} {
-		fd := findFunc(orderF, fn)
+		fd := findFunc(orderF, w[0])
 		if fd == nil {
-			fail("%s not found", fn)
+			fail("%s not found", w[0])
 			continue
 		}
-		got := batFirstReturn(fd.Body.List)
-		if len(got) != 1 || batOneLine(got[0]) != want {
-			fail("%s: return expression is %q, model expects %q", fn, got, want)
+		ok := false
+		if be, isBin := batReturnExpr(fd).(*ast.BinaryExpr); isBin {
+			masked, other := be.X, be.Y
+			if be.Op == token.LEQ {
+				masked, other = be.Y, be.X
+			}
+			if (be.Op == token.GEQ || be.Op == token.LEQ) && batCommutes(masked, token.AND, "bv", "LinearVersionEnd") &&
+				batOneLine(exprString(other)) == w[1] {
+				ok = true
+			}
+		}
+		if !ok {
+			fail("%s: is no longer (bv & LinearVersionEnd) >= %s", w[0], w[1])
 		}
 	}
 
-	// ---- terms.LinearFeeSchedule.ExecutionFee: amt * s.feeRate / <parts>
+	// ---- terms.LinearFeeSchedule.ExecutionFee: (amt * s.feeRate) / <parts>, factors in either order
 	if fd := findFunc(termsF, "LinearFeeSchedule.ExecutionFee"); fd == nil {
 		fail("LinearFeeSchedule.ExecutionFee not found")
 	} else {
-		got := batFirstReturn(fd.Body.List)
 		parts := "0"
-		if len(got) == 1 && strings.HasPrefix(batOneLine(got[0]), "amt * s.feeRate / ") {
-			parts = strings.ReplaceAll(strings.TrimPrefix(batOneLine(got[0]), "amt * s.feeRate / "), "_", "")
+		be, ok := batReturnExpr(fd).(*ast.BinaryExpr)
+		if ok && be.Op == token.QUO && batCommutes(be.X, token.MUL, "amt", "s.feeRate") {
+			if lit, isLit := be.Y.(*ast.BasicLit); isLit {
+				parts = strings.ReplaceAll(lit.Value, "_", "")
+			} else {
+				ok = false
+			}
 		} else {
-			fail("LinearFeeSchedule.ExecutionFee: unexpected return %q", got)
+			ok = false
+		}
+		if !ok {
+			fail("LinearFeeSchedule.ExecutionFee: is no longer amt * feeRate / <literal>")
 		}
 		l.p("def feeRatePartsPerMillion : Int := %s", parts)
 	}
@@ -150,8 +167,35 @@ func genBatchFacts() {
 			"weightEstimate *= blockchain.WitnessScaleFactor",
 			"return feeRate.FeeForWeight(lntypes.WeightUnit(weightEstimate))",
 		}
-		if strings.Join(stm, "|") != strings.Join(want, "|") {
-			fail("EstimateTraderFee: statement sequence changed: %q", stm)
+		// the three additions before the scaling commute; the scaling comes after them and the
+		// result is returned through FeeForWeight at the end
+		scaleAt := -1
+		for i, x := range stm {
+			if x == want[4] {
+				scaleAt = i
+			}
+		}
+		okSeq := scaleAt >= 0 && len(stm) == len(want) && stm[len(stm)-1] == want[5]
+		if okSeq {
+			pre := append([]string{}, stm[:scaleAt]...)
+			wantPre := []string{want[0], want[1], want[2], want[3]}
+			sort.Strings(pre)
+			sort.Strings(wantPre)
+			okSeq = strings.Join(pre, "|") == strings.Join(wantPre, "|")
+			// chanOutputSize must be defined before it is used
+			di, ui := -1, -1
+			for i, x := range stm {
+				if x == want[2] {
+					di = i
+				}
+				if x == want[3] {
+					ui = i
+				}
+			}
+			okSeq = okSeq && di >= 0 && di < ui
+		}
+		if !okSeq {
+			fail("EstimateTraderFee: weight computation changed: %q", stm)
 		}
 		l.p("def p2wshOutputSize : Nat := %d", externConsts["input.P2WSHOutputSize"])
 		l.p("def inputSize : Nat := %d", externConsts["input.InputSize"])
@@ -180,27 +224,32 @@ func genBatchFacts() {
 		l.p("def taprootWitnessVersions : List Nat := [%s]", strings.Join(tapVers, ", "))
 	}
 
-	// ---- account.Version.ScriptVersion
+	// ---- account.Version.ScriptVersion (switch or if-chain)
 	if fd := findFunc(acctF, "Version.ScriptVersion"); fd == nil {
 		fail("Version.ScriptVersion not found")
 	} else {
 		var rows []string
 		def := "0"
-		for _, c := range batSwitchCases(fd, "v") {
-			ret := batFirstReturn(c.Body)
+		arms, ok := batValueTable(fd, []string{"v"})
+		if !ok {
+			fail("ScriptVersion: not a table over the version")
+		}
+		for _, arm := range arms {
+			ret := batFirstReturn(arm.body)
 			if len(ret) != 1 {
-				fail("ScriptVersion: case without single return")
+				fail("ScriptVersion: arm without single return")
 				continue
 			}
 			sv := intConst(ps, "poolscript", batLastIdent(ret[0]))
-			if len(c.List) == 0 {
+			if arm.vals == nil {
 				def = sv
 				continue
 			}
-			for _, e := range c.List {
-				rows = append(rows, fmt.Sprintf("(%s, %s)", intConst(acct, "account", batLastIdent(exprString(e))), sv))
+			for _, e := range arm.vals {
+				rows = append(rows, fmt.Sprintf("(%s, %s)", intConst(acct, "account", batLastIdent(e)), sv))
 			}
 		}
+		sort.Strings(rows)
 		l.p("def scriptVersionTable : List (Nat × Nat) := [%s]", strings.Join(rows, ", "))
 		l.p("def scriptVersionDefault : Nat := %s", def)
 	}
@@ -211,59 +260,124 @@ func genBatchFacts() {
 		fail("ValidateVersion not found")
 	} else {
 		var vs []string
-		for _, c := range batSwitchCases(fd, "version") {
-			ret := batFirstReturn(c.Body)
-			if len(c.List) == 0 {
+		arms, ok := batValueTable(fd, []string{"version"})
+		if !ok {
+			fail("ValidateVersion: not a table over the version itself")
+		}
+		for _, arm := range arms {
+			ret := batFirstReturn(arm.body)
+			if arm.vals == nil {
 				if len(ret) != 1 || ret[0] == "nil" {
-					fail("ValidateVersion: default case no longer returns an error")
+					fail("ValidateVersion: default arm no longer returns an error")
 				}
 				continue
 			}
 			if len(ret) != 1 || ret[0] != "nil" {
-				fail("ValidateVersion: listed case no longer returns nil")
+				fail("ValidateVersion: listed arm no longer returns nil")
 			}
-			for _, e := range c.List {
-				vs = append(vs, intConst(acct, "account", batLastIdent(exprString(e))))
+			for _, e := range arm.vals {
+				vs = append(vs, intConst(acct, "account", batLastIdent(e)))
 			}
 		}
+		sort.Strings(vs)
 		l.p("def validAccountVersions : List Nat := [%s]", strings.Join(vs, ", "))
 	}
 	l.p("def maxAccountExpiry : Nat := %s", intConst(acct, "account", "maxAccountExpiry"))
 
-	// ---- AccountDiff.validateEndingState: ending-state sets
+	// ---- AccountDiff.validateEndingState: ending-state sets (read semantically: if-chains and switches,
+	// either operand order, locals followed)
 	if fd := findFunc(orderF, "AccountDiff.validateEndingState"); fd == nil {
 		fail("validateEndingState not found")
 	} else {
-		var dust []string
+		loc := batLocals(fd)
+		stateNames := []string{"d.EndingState"}
+		dustSet := map[string]bool{}
 		recreated := ""
 		dustCmp := false
-		ast.Inspect(fd.Body, func(n ast.Node) bool {
-			ifs, ok := n.(*ast.IfStmt)
+		isDustCmp := func(e ast.Expr) bool {
+			be, ok := batResolve(e, loc).(*ast.BinaryExpr)
 			if !ok {
-				return true
+				return false
 			}
-			cond := batOneLine(exprString(ifs.Cond))
-			if cond == "d.EndingBalance < MinNoDustAccountSize" {
-				dustCmp = true
-			}
-			if strings.HasPrefix(cond, "state != ") {
-				parts := strings.Split(cond, " && ")
-				var vals []string
-				for _, p := range parts {
-					if !strings.HasPrefix(p, "state != ") {
-						fail("validateEndingState: unexpected state condition %q", cond)
-						return true
+			l, r := batText(be.X, loc), batText(be.Y, loc)
+			return (be.Op == token.LSS && l == "d.EndingBalance" && r == "MinNoDustAccountSize") ||
+				(be.Op == token.GTR && l == "MinNoDustAccountSize" && r == "d.EndingBalance")
+		}
+		// every expression used as a condition
+		var conds []ast.Expr
+		ast.Inspect(fd.Body, func(n ast.Node) bool {
+			switch x := n.(type) {
+			case *ast.IfStmt:
+				conds = append(conds, x.Cond)
+			case *ast.SwitchStmt:
+				if x.Tag == nil {
+					for _, c := range x.Body.List {
+						conds = append(conds, c.(*ast.CaseClause).List...)
 					}
-					vals = append(vals, intConst(rpc, "auctioneerrpc", batLastIdent(strings.TrimPrefix(p, "state != "))))
-				}
-				if len(vals) > 1 {
-					dust = vals
-				} else {
-					recreated = vals[0]
+				} else if batText(x.Tag, loc) == "d.EndingState" {
+					// switch state { case A, B, C: default: return err }  ==  state != A && state != B && state != C
+					var vals []string
+					defReturns := false
+					for _, c := range x.Body.List {
+						cc := c.(*ast.CaseClause)
+						if len(cc.List) == 0 {
+							defReturns = len(batFirstReturn(cc.Body)) > 0
+							continue
+						}
+						if len(batFirstReturn(cc.Body)) > 0 {
+							defReturns = false
+							vals = nil
+							break
+						}
+						for _, e := range cc.List {
+							vals = append(vals, batOneLine(exprString(e)))
+						}
+					}
+					if defReturns {
+						if len(vals) > 1 {
+							for _, v := range vals {
+								dustSet[intConst(rpc, "auctioneerrpc", batLastIdent(v))] = true
+							}
+						} else if len(vals) == 1 {
+							recreated = intConst(rpc, "auctioneerrpc", batLastIdent(vals[0]))
+						}
+					}
 				}
 			}
 			return true
 		})
+		for _, c := range conds {
+			if isDustCmp(c) {
+				dustCmp = true
+				continue
+			}
+			parts := batFlatten(c, token.LAND, loc)
+			var vals []string
+			okAll := true
+			for _, p := range parts {
+				_, other, ok := batCompare(p, token.NEQ, stateNames, loc)
+				if !ok {
+					okAll = false
+					break
+				}
+				vals = append(vals, intConst(rpc, "auctioneerrpc", batLastIdent(other)))
+			}
+			if !okAll {
+				continue
+			}
+			if len(vals) > 1 {
+				for _, v := range vals {
+					dustSet[v] = true
+				}
+			} else {
+				recreated = vals[0]
+			}
+		}
+		var dust []string
+		for v := range dustSet {
+			dust = append(dust, v)
+		}
+		sort.Strings(dust)
 		if !dustCmp || len(dust) == 0 || recreated == "" {
 			fail("validateEndingState: dust comparison / state sets not found")
 			recreated = "0"
@@ -272,79 +386,98 @@ func genBatchFacts() {
 		l.p("def recreatedEndingState : Int := %s", recreated)
 	}
 
-	// ---- DetermineCommitmentType: ordered cases
+	// ---- DetermineCommitmentType: ordered decision list (switch or if-chain; operand order and local
+	// aliases of the two channel types do not matter)
 	if fd := findFunc(orderF, "DetermineCommitmentType"); fd == nil {
 		fail("DetermineCommitmentType not found")
 	} else {
+		loc := batLocals(fd)
 		var rows []string
 		def := ""
-		for _, c := range batSwitchCases(fd, "") {
-			ret := batFirstReturn(c.Body)
+		for _, arm := range batDecisionList(fd.Body.List) {
+			ret := batFirstReturn(arm.body)
 			if len(ret) != 2 {
-				fail("DetermineCommitmentType: case without (type, bool) return")
+				fail("DetermineCommitmentType: arm without (type, bool) return")
 				continue
 			}
 			name := strings.TrimPrefix(batLastIdent(ret[0]), "CommitmentType_")
-			if len(c.List) == 0 {
+			if arm.conds == nil {
 				def = name
 				continue
 			}
-			if len(c.List) != 1 {
-				fail("DetermineCommitmentType: multi-expression case")
+			if arm.tag != nil || len(arm.conds) != 1 {
+				fail("DetermineCommitmentType: unexpected kind of case")
 				continue
 			}
-			be, ok := c.List[0].(*ast.BinaryExpr)
+			be, ok := batResolve(arm.conds[0], loc).(*ast.BinaryExpr)
 			if !ok || (be.Op != token.LOR && be.Op != token.LAND) {
 				fail("DetermineCommitmentType: case is not a ||/&& of two tests")
 				continue
 			}
-			lhs, rhs := batOneLine(exprString(be.X)), batOneLine(exprString(be.Y))
-			const lp, rp = "ourOrder.ChannelType == ", "theirOrder.ChannelType == "
-			if !strings.HasPrefix(lhs, lp) || !strings.HasPrefix(rhs, rp) ||
-				strings.TrimPrefix(lhs, lp) != strings.TrimPrefix(rhs, rp) {
-				fail("DetermineCommitmentType: unexpected tests %q / %q", lhs, rhs)
+			who1, c1, ok1 := batCompare(be.X, token.EQL, []string{"ourOrder.ChannelType", "theirOrder.ChannelType"}, loc)
+			who2, c2, ok2 := batCompare(be.Y, token.EQL, []string{"ourOrder.ChannelType", "theirOrder.ChannelType"}, loc)
+			if !ok1 || !ok2 || who1 == who2 || c1 != c2 {
+				fail("DetermineCommitmentType: unexpected tests %q / %q", batOneLine(exprString(be.X)), batOneLine(exprString(be.Y)))
 				continue
 			}
 			op := "or"
 			if be.Op == token.LAND {
 				op = "and"
 			}
-			rows = append(rows, fmt.Sprintf("(%q, %s, %q)", op,
-				intConst(order, "order", strings.TrimPrefix(lhs, lp)), name))
+			rows = append(rows, fmt.Sprintf("(%q, %s, %q)", op, intConst(order, "order", batLastIdent(c1)), name))
 		}
 		l.p("def commitCases : List (String × Nat × String) := [%s]", strings.Join(rows, ", "))
 		l.p("def commitDefault : String := %q", def)
 	}
 
-	// ---- poolscript.FundingOutput: commitment types with a taproot output
+	// ---- poolscript.FundingOutput: commitment types with a taproot output (switch or if, helpers inlined)
 	if fd := findFunc(psF, "FundingOutput"); fd == nil {
 		fail("FundingOutput not found")
 	} else {
+		loc := batLocals(fd)
 		var tap []string
 		nDefault := 0
-		for _, c := range batSwitchCases(fd, "commitmentType") {
-			body := ""
-			for _, s := range c.Body {
-				body += batStmtString(s)
-			}
+		for _, arm := range batDecisionList(fd.Body.List) {
+			body := batBodyText(arm.body, psF, 2)
 			isTap := strings.Contains(body, "GenTaprootFundingScript")
 			isWsh := strings.Contains(body, "GenFundingPkScript")
-			if len(c.List) == 0 {
+			if arm.conds == nil {
 				nDefault++
 				if !isWsh || isTap {
-					fail("FundingOutput: default case is not the p2wsh branch")
+					fail("FundingOutput: default arm is not the p2wsh branch")
 				}
 				continue
 			}
 			if !isTap || isWsh {
-				fail("FundingOutput: non-default case is not the taproot branch")
+				fail("FundingOutput: non-default arm is not the taproot branch")
 			}
-			for _, e := range c.List {
-				tap = append(tap, fmt.Sprintf("%q", strings.TrimPrefix(batLastIdent(exprString(e)), "CommitmentType_")))
+			for _, e := range arm.conds {
+				val := ""
+				if arm.tag != nil {
+					if batText(arm.tag, loc) != "commitmentType" {
+						fail("FundingOutput: switch on %q", batText(arm.tag, loc))
+					}
+					val = batOneLine(exprString(e))
+				} else {
+					for _, d := range batFlatten(e, token.LOR, loc) {
+						_, other, ok := batCompare(d, token.EQL, []string{"commitmentType"}, loc)
+						if !ok {
+							fail("FundingOutput: unexpected condition %q", batOneLine(exprString(d)))
+							continue
+						}
+						if val != "" {
+							tap = append(tap, fmt.Sprintf("%q", strings.TrimPrefix(batLastIdent(val), "CommitmentType_")))
+						}
+						val = other
+					}
+				}
+				if val != "" {
+					tap = append(tap, fmt.Sprintf("%q", strings.TrimPrefix(batLastIdent(val), "CommitmentType_")))
+				}
 			}
 		}
 		if nDefault != 1 {
-			fail("FundingOutput: no default case")
+			fail("FundingOutput: no default arm")
 		}
 		l.p("def taprootFundingCommitTypes : List String := [%s]", strings.Join(tap, ", "))
 	}
@@ -475,15 +608,16 @@ func genBatchFacts() {
 				fail("%s not found", fn)
 				continue
 			}
+			loc := batLocals(fd)
 			ast.Inspect(fd.Body, func(n ast.Node) bool {
 				switch x := n.(type) {
 				case *ast.CallExpr:
 					if id, ok := x.Fun.(*ast.Ident); ok && id.Name == "ParseRPCServerOrder" && len(x.Args) == 4 {
-						src = append(src, batOneLine(exprString(x.Args[3])))
+						src = append(src, batText(x.Args[3], loc))
 					}
 				case *ast.AssignStmt:
 					if len(x.Lhs) == 1 && batOneLine(exprString(x.Lhs[0])) == "kit.LeaseDuration" {
-						src = append(src, batOneLine(exprString(x.Rhs[0])))
+						src = append(src, batText(x.Rhs[0], loc))
 					}
 				}
 				return true
@@ -504,6 +638,260 @@ func genBatchFacts() {
 	}
 
 	l.p("end Pool.Gen.Batch")
+}
+
+// ---------------------------------------------------------------- semantic helpers (spelling-insensitive)
+
+// batLocals maps a local name to the expression that (solely) defines it:
+// `x := e`, `a, b := e1, e2`, `var x = e`. Names assigned more than once are dropped.
+func batLocals(fd *ast.FuncDecl) map[string]ast.Expr {
+	defs := map[string]ast.Expr{}
+	count := map[string]int{}
+	ast.Inspect(fd.Body, func(n ast.Node) bool {
+		switch x := n.(type) {
+		case *ast.AssignStmt:
+			if len(x.Lhs) == len(x.Rhs) {
+				for i, lh := range x.Lhs {
+					if id, ok := lh.(*ast.Ident); ok {
+						count[id.Name]++
+						defs[id.Name] = x.Rhs[i]
+					}
+				}
+			} else {
+				for _, lh := range x.Lhs {
+					if id, ok := lh.(*ast.Ident); ok {
+						count[id.Name] += 2
+					}
+				}
+			}
+		case *ast.ValueSpec:
+			for i, nm := range x.Names {
+				if i < len(x.Values) {
+					count[nm.Name]++
+					defs[nm.Name] = x.Values[i]
+				}
+			}
+		}
+		return true
+	})
+	for n, c := range count {
+		if c != 1 {
+			delete(defs, n)
+		}
+	}
+	return defs
+}
+
+// batResolve strips parentheses and follows simple local definitions.
+func batResolve(e ast.Expr, loc map[string]ast.Expr) ast.Expr {
+	for i := 0; i < 4; i++ {
+		switch x := e.(type) {
+		case *ast.ParenExpr:
+			e = x.X
+			continue
+		case *ast.Ident:
+			if d, ok := loc[x.Name]; ok {
+				e = d
+				continue
+			}
+		}
+		break
+	}
+	return e
+}
+
+func batText(e ast.Expr, loc map[string]ast.Expr) string {
+	return batOneLine(exprString(batResolve(e, loc)))
+}
+
+// batFlatten splits a condition into the operands of a chain of one binary operator.
+func batFlatten(e ast.Expr, op token.Token, loc map[string]ast.Expr) []ast.Expr {
+	e = batResolve(e, loc)
+	if be, ok := e.(*ast.BinaryExpr); ok && be.Op == op {
+		return append(batFlatten(be.X, op, loc), batFlatten(be.Y, op, loc)...)
+	}
+	return []ast.Expr{e}
+}
+
+// batCompare recognises `subject <op> other` in either operand order (op is == or !=):
+// returns the printed other side when one side resolves to one of the subject spellings.
+func batCompare(e ast.Expr, op token.Token, subjects []string, loc map[string]ast.Expr) (string, string, bool) {
+	be, ok := batResolve(e, loc).(*ast.BinaryExpr)
+	if !ok || be.Op != op {
+		return "", "", false
+	}
+	lx, rx := batText(be.X, loc), batText(be.Y, loc)
+	for _, sj := range subjects {
+		if lx == sj {
+			return sj, batOneLine(exprString(be.Y)), true
+		}
+		if rx == sj {
+			return sj, batOneLine(exprString(be.X)), true
+		}
+	}
+	return "", "", false
+}
+
+// batReturnExpr returns the (single) result expression of the first return statement, with a local result
+// variable followed to its definition.
+func batReturnExpr(fd *ast.FuncDecl) ast.Expr {
+	loc := batLocals(fd)
+	var res ast.Expr
+	ast.Inspect(fd.Body, func(n ast.Node) bool {
+		if r, ok := n.(*ast.ReturnStmt); ok && res == nil && len(r.Results) == 1 {
+			res = batResolve(r.Results[0], loc)
+		}
+		return res == nil
+	})
+	return res
+}
+
+// batCommutes reports whether e is `a <op> b` with {a, b} = {x, y} in either order (printed, parens stripped).
+func batCommutes(e ast.Expr, op token.Token, x, y string) bool {
+	for {
+		pe, ok := e.(*ast.ParenExpr)
+		if !ok {
+			break
+		}
+		e = pe.X
+	}
+	be, ok := e.(*ast.BinaryExpr)
+	if !ok || be.Op != op {
+		return false
+	}
+	l, r := batOneLine(exprString(be.X)), batOneLine(exprString(be.Y))
+	return (l == x && r == y) || (l == y && r == x)
+}
+
+// batArm is one arm of a decision list: its conditions (nil = default / fall-through rest) and its statements.
+type batArm struct {
+	tag   ast.Expr   // tag of a tagged switch (conds are then the case values)
+	conds []ast.Expr // nil for the default arm
+	body  []ast.Stmt
+}
+
+// batDecisionList reads the first decision construct of a statement list as a list of arms: a (tagged or
+// tagless) switch, or an if / else-if chain; when no explicit default / else exists the statements that follow
+// the construct form the default arm.
+func batDecisionList(stmts []ast.Stmt) []batArm {
+	for i, st := range stmts {
+		switch x := st.(type) {
+		case *ast.SwitchStmt:
+			var arms []batArm
+			hasDefault := false
+			for _, c := range x.Body.List {
+				cc := c.(*ast.CaseClause)
+				if len(cc.List) == 0 {
+					hasDefault = true
+					arms = append(arms, batArm{tag: x.Tag, body: cc.Body})
+				} else {
+					arms = append(arms, batArm{tag: x.Tag, conds: cc.List, body: cc.Body})
+				}
+			}
+			// the default arm last, wherever it was written
+			var ordered []batArm
+			var def *batArm
+			for k := range arms {
+				if arms[k].conds == nil {
+					def = &arms[k]
+				} else {
+					ordered = append(ordered, arms[k])
+				}
+			}
+			if hasDefault {
+				ordered = append(ordered, *def)
+			} else {
+				ordered = append(ordered, batArm{body: stmts[i+1:]})
+			}
+			return ordered
+		case *ast.IfStmt:
+			var arms []batArm
+			cur := x
+			for {
+				arms = append(arms, batArm{conds: []ast.Expr{cur.Cond}, body: cur.Body.List})
+				if cur.Else == nil {
+					arms = append(arms, batArm{body: stmts[i+1:]})
+					return arms
+				}
+				if ei, ok := cur.Else.(*ast.IfStmt); ok {
+					cur = ei
+					continue
+				}
+				arms = append(arms, batArm{body: cur.Else.(*ast.BlockStmt).List})
+				return arms
+			}
+		}
+	}
+	return nil
+}
+
+// batValArm: the constants a subject is compared with in one arm of a decision list, and the arm's statements.
+type batValArm struct {
+	vals []string // nil = default
+	body []ast.Stmt
+}
+
+// batValueTable reads a function as a table "subject value -> arm", whether it is written as a tagged switch on
+// the subject, a tagless switch or an if-chain of `subject == C [|| subject == D]` tests (either operand order).
+func batValueTable(fd *ast.FuncDecl, subjects []string) ([]batValArm, bool) {
+	loc := batLocals(fd)
+	var res []batValArm
+	for _, arm := range batDecisionList(fd.Body.List) {
+		if arm.conds == nil {
+			res = append(res, batValArm{body: arm.body})
+			continue
+		}
+		va := batValArm{body: arm.body, vals: []string{}}
+		if arm.tag != nil {
+			okTag := false
+			for _, sj := range subjects {
+				if batText(arm.tag, loc) == sj {
+					okTag = true
+				}
+			}
+			if !okTag {
+				return nil, false
+			}
+			for _, e := range arm.conds {
+				va.vals = append(va.vals, batOneLine(exprString(e)))
+			}
+		} else {
+			for _, c := range arm.conds {
+				for _, d := range batFlatten(c, token.LOR, loc) {
+					_, other, ok := batCompare(d, token.EQL, subjects, loc)
+					if !ok {
+						return nil, false
+					}
+					va.vals = append(va.vals, other)
+				}
+			}
+		}
+		res = append(res, va)
+	}
+	return res, len(res) > 0
+}
+
+// batBodyText prints statements, inlining (two levels) the bodies of same-package functions they call.
+func batBodyText(stmts []ast.Stmt, files []*ast.File, depth int) string {
+	var sb strings.Builder
+	for _, st := range stmts {
+		sb.WriteString(batStmtString(st))
+		sb.WriteString("\n")
+		if depth <= 0 {
+			continue
+		}
+		ast.Inspect(st, func(n ast.Node) bool {
+			if ce, ok := n.(*ast.CallExpr); ok {
+				if id, ok := ce.Fun.(*ast.Ident); ok {
+					if fd := findFunc(files, id.Name); fd != nil && fd.Body != nil {
+						sb.WriteString(batBodyText(fd.Body.List, files, depth-1))
+					}
+				}
+			}
+			return true
+		})
+	}
+	return sb.String()
 }
 
 func batStmtString(s ast.Stmt) string {
